@@ -90,6 +90,15 @@ WF = ["wf_lists(self)"]
 
 
 @specfunc
+def vlist(E, o, key):
+    """the key's value list (the raw entry of the map; `o[key]` itself is the newest value on a real modict)"""
+    return B.getitem(E, _d(E, o), key)
+
+
+vlist.native = lambda o, key: dict.__getitem__(o, key)
+
+
+@specfunc
 def newest(E, o, key):
     """last element of the key's value list"""
     lv = B.getitem(E, _d(E, o), key)
@@ -163,6 +172,12 @@ def mo_harness(extra=None, call=None, model=None, count=200):
         return env
 
     def check(env, nr, outcome, result, exc):
+        try:
+            return _check(env, nr, outcome, result, exc)
+        except Exception as ex:
+            return ["reference model: the object cannot be read back (%r)" % (ex,)]
+
+    def _check(env, nr, outcome, result, exc):
         if model is None:
             return []
         keys, lists = list(env["_snap"][0]), {k: list(v) for k, v in env["_snap"][1].items()}
@@ -228,14 +243,14 @@ newest_of.native = lambda res, o, pairs=False: list(res) == [((k, dict.__getitem
 KEYS_KEPT = ["implies(old(key in self), keys_unchanged(self))",
              "implies(not old(key in self), is_concat(self._keys, old_keys(self), [key]))"]
 MO_MODS = MODS + ["self[key][*]"]
-ENS_APPEND = ["mo_inv(self)", "appended(self, key, value)", "implies(not old(key in self), fresh(self[key]))",
+ENS_APPEND = ["mo_inv(self)", "appended(self, key, value)", "implies(not old(key in self), fresh(vlist(self, key)))",
               "others_kept(self, key)"] + KEYS_KEPT
 
 # odict.__setitem__ for a modict receiver (values are list objects): as the C39 contract of odict.__setitem__, with
 # the stored object stated by identity (`is`), which is what the list-per-key invariant needs
 contract(F, "odict.__setitem__", "C39", params=dict(MP, key=K, val=VL), requires=["inv(self)"], assumes=WF, modifies=MODS,
          ghost={"after": {"self._keys.append(key)": OD._g_after_append}},
-         ensures=["inv(self)", "key in self and self[key] is val", "same_vals_except(self, key)"] + KEYS_KEPT,
+         ensures=["inv(self)", "key in self and vlist(self, key) is val", "same_vals_except(self, key)"] + KEYS_KEPT,
          note="variant for modict receivers (list values)")
 contract(F, "modict.append", "C39", params=dict(MP, key=K, value=V_), requires=["mo_inv(self)"], assumes=WF, modifies=MO_MODS,
          ensures=ENS_APPEND, replay=mo_harness(extra=_kv, model=_m_append))
@@ -253,7 +268,7 @@ contract(F, "modict.get", "C39", params=dict(MP, key=K, default=V_), requires=["
                            model=lambda ks, ls, env: (ks, ls, ls[env["key"]][-1] if env["key"] in ls else -1)),
          note="index=-1 (newest), kind=None, explicit default of the value type")
 contract(F, "modict.getlist", "C39", params=dict(MP, key=K), requires=["mo_inv(self)"], assumes=WF, modifies=[],
-         ensures=["implies(key in self, result is self[key])", "implies(key not in self, len(result) == 0 and fresh(result))"],
+         ensures=["implies(key in self, result is vlist(self, key))", "implies(key not in self, len(result) == 0 and fresh(result))"],
          returns=VL,
          replay=mo_harness(extra=_k, model=lambda ks, ls, env: (ks, ls, list(ls.get(env["key"], [])))))
 contract(F, "modict.has_key", "C39", params=dict(MP, key=K), requires=["mo_inv(self)"], assumes=WF, modifies=[],
@@ -269,7 +284,7 @@ def _m_replace(ks, ls, env):
 
 
 contract(F, "modict.replace", "C39", params=dict(MP, key=K, value=V_), requires=["mo_inv(self)"], assumes=WF, modifies=MODS,
-         ensures=["mo_inv(self)", "key in self and len(self[key]) == 1 and self[key][0] == value", "fresh(self[key])",
+         ensures=["mo_inv(self)", "key in self and len(vlist(self, key)) == 1 and vlist(self, key)[0] == value", "fresh(vlist(self, key))",
                   "others_kept(self, key)"] + KEYS_KEPT,
          replay=mo_harness(extra=_kv, model=_m_replace))
 
@@ -314,7 +329,7 @@ _POP_GONE = ["mo_inv(self)", "key not in self", "others_kept(self, key)"]
 _POP_KEYS = "removed_at(self._keys, old_keys(self), old_pos(self, key))"
 _NOCHANGE = [UNCHANGED, "others_kept(self, None)"]
 for _meth, _res, _lst in (("pop", "result == old_newest(self, key)", False),
-                          ("poplist", "seq_eq(result, old(self[key]))", True)):
+                          ("poplist", "seq_eq(result, old(vlist(self, key)))", True)):
     contract(F, "modict." + _meth, "C39", params=dict(MP, key=K), requires=["mo_inv(self)"], assumes=WF, modifies=MODS,
              ensures=_POP_GONE + ["old(key in self)", _res, _POP_KEYS],
              raises={"KeyError": ["old(key not in self)"] + _NOCHANGE}, returns=(VL if _lst else V_),
